@@ -79,10 +79,14 @@ func TestMain(m *testing.M) {
 		evid.Spec{Name: "TestEnumAboveBuffer", Kind: "plain", QuickShards: 16, ThoroughShards: 16, TimeoutS: 3000},
 		evid.Spec{Name: "TestPropRandomFaults", Kind: "rapid", Quick: 560, Thorough: 24000, QuickShards: 8, ThoroughShards: 16, TimeoutS: 3000},
 		evid.Spec{Name: "TestPropCommands", Kind: "rapid", Quick: 160, Thorough: 4000, QuickShards: 8, ThoroughShards: 16, TimeoutS: 3000},
+		evid.Spec{Name: "TestEnumErrno", Kind: "plain", QuickShards: 8, ThoroughShards: 16, TimeoutS: 3000},
+		evid.Spec{Name: "TestPropRealFiles", Kind: "rapid", Quick: 320, Thorough: 6000, QuickShards: 8, ThoroughShards: 16, TimeoutS: 3000},
+		evid.Spec{Name: "TestPropRealPipes", Kind: "rapid", Quick: 160, Thorough: 3000, QuickShards: 8, ThoroughShards: 16, TimeoutS: 3000},
+		evid.Spec{Name: "TestPropCommandsReal", Kind: "rapid", Quick: 160, Thorough: 2400, QuickShards: 8, ThoroughShards: 16, TimeoutS: 3000},
 	)
 	evid.Helpers("faultcmd")
 	evid.Commands("obiconvert", "obicsv")
-	evid.Note("rule", "A fault case = writer (WriteFasta, WriteFastq, WriteJSON, WriteCSV) x batches (record count each, 0 = empty batch) x arrival permutation x gzip on/off x CloseFile on/off x fault kind (short write + error, error only, both sticky; one transient error; error at Close) x byte offset k in the stream handed to the writer. Each case is one run of harness/cmd/faultcmd: the real Write* function on a failing io.WriteCloser, iterator consumed, obiiter.WaitForLastPipe, return from main; log.Fatalf is a real exit(1). Reference T = stream of the same configuration without fault (same helper, run once per configuration, with a trace of every Write call of the stream and whether Wfile.Close was executing). Oracle: the stream returned an error at least once => exit status != 0 and a non-info line on stderr; it never did => exit 0 and stream == T byte for byte. Enumerated: EVERY offset 0..|T|+1 of outputs of 230-350 bytes (everything sits in the 4 KiB buffer until the final flush; gzip streams 130-230 bytes) and of 5.7-6 KiB (buffer flushed once during the writes; gzip streams 1.3-2.1 KiB) for the 4 writers, plain and gzip, arrival orders in order / all buffered / alternating / last-first / one early chunk, the other dimensions (kind, CloseFile) fully crossed (small outputs) or rotated with k (6 KiB outputs) in the thorough tier; the quick tier enumerates every offset of the small uncompressed outputs (every third of the gzip ones) with the other dimensions rotated, and samples the 6 KiB offsets (a stride plus every buffer, chunk and stream boundary +-1); both tiers sample outputs of 20 KiB whose four chunks each exceed the buffer (stride + every boundary +-1, up to 3 chunks waiting when the fault strikes); random configurations up to 40 KiB (rarely > 1 MiB in the thorough tier, so that gzip blocks are written before Close) with 1..4 workers. Real commands: obiconvert (fasta, fastq, json, -Z) with -o /dev/full and stdout on /dev/full, obicsv with stdout on /dev/full, and stdout on a 4 KiB pipe whose read end is closed after k bytes (verdict only if |T| > k + pipe capacity; death by SIGPIPE accepted). Non-trivial = one formatting worker and (the failing Write call of the stream is issued while Wfile.Close runs, i.e. the fault is only visible at the final flush / gzip close, or the stream's Close fails and CloseFile is set, or >= 1 chunk was waiting in the re-sequencing buffer when the chunk whose Write hits the fault was written - derived from the arrival permutation with the C04 buffer model and the chunk boundaries found in T); for real commands: /dev/full with an output below 4 KiB or compressed (error only at flush/close). Distinct = hash of the whole case. Timed-out subprocesses are skipped and counted.")
+	evid.Note("rule", "A fault case = writer (WriteFasta, WriteFastq, WriteJSON, WriteCSV) x batches (record count each, 0 = empty batch) x arrival permutation x gzip on/off x CloseFile on/off x fault kind (short write + error, error only, both sticky; one transient error; error at Close) x byte offset k in the stream handed to the writer. Each case is one run of harness/cmd/faultcmd: the real Write* function on a failing io.WriteCloser, iterator consumed, obiiter.WaitForLastPipe, return from main; log.Fatalf is a real exit(1). Reference T = stream of the same configuration without fault (same helper, run once per configuration, with a trace of every Write call of the stream and whether Wfile.Close was executing). Oracle: the stream returned an error at least once => exit status != 0 and a non-info line on stderr; it never did => exit 0 and stream == T byte for byte. Enumerated: EVERY offset 0..|T|+1 of outputs of 230-350 bytes (everything sits in the 4 KiB buffer until the final flush; gzip streams 130-230 bytes) and of 5.7-6 KiB (buffer flushed once during the writes; gzip streams 1.3-2.1 KiB) for the 4 writers, plain and gzip, arrival orders in order / all buffered / alternating / last-first / one early chunk, the other dimensions (kind, CloseFile) fully crossed (small outputs) or rotated with k (6 KiB outputs) in the thorough tier; the quick tier enumerates every offset of the small uncompressed outputs (every third of the gzip ones) with the other dimensions rotated, and samples the 6 KiB offsets (a stride plus every buffer, chunk and stream boundary +-1); both tiers sample outputs of 20 KiB whose four chunks each exceed the buffer (stride + every boundary +-1, up to 3 chunks waiting when the fault strikes); random configurations up to 40 KiB (rarely > 1 MiB in the thorough tier, so that gzip blocks are written before Close) with 1..4 workers. Real commands: obiconvert (fasta, fastq, json, -Z) with -o /dev/full and stdout on /dev/full, obicsv with stdout on /dev/full, and stdout on a 4 KiB pipe whose read end is closed after k bytes (verdict only if |T| > k + pipe capacity; death by SIGPIPE accepted). Non-trivial = one formatting worker and (the failing Write call of the stream is issued while Wfile.Close runs, i.e. the fault is only visible at the final flush / gzip close, or the stream's Close fails and CloseFile is set, or >= 1 chunk was waiting in the re-sequencing buffer when the chunk whose Write hits the fault was written - derived from the arrival permutation with the C04 buffer model and the chunk boundaries found in T); for real commands: /dev/full with an output below 4 KiB or compressed (error only at flush/close). Distinct = hash of the whole case. Timed-out subprocesses are skipped and counted. ADDITIONS (real descriptors). (1) In half of the random fault cases and in a second enumeration (TestEnumErrno: every boundary +-1 and a stride of the 0.3, 6 and 20 KiB outputs x 4 writers x plain/gzip) the injected error is what the OS returns for a file: an *fs.PathError around EPIPE, ENOSPC, EIO or EDQUOT instead of a private value; same oracle. (2) TestPropRealFiles: faultcmd hands the real Write* / Write*ToFile / Write*ToStdout functions a REGULAR FILE (opened by the harness helper, by the library, or being file descriptor 1) under a file size limit L (RLIMIT_FSIZE, SIGXFSZ ignored: write(2) answers EFBIG beyond L as ENOSPC on a full disk); outputs from a few bytes to 1.5 MB (6 MB thorough) with chunks below 4 KiB, of 4-64 KiB, of 64 KiB-600 KiB (what the default batch size gives) and single records of 66-400 KB; L uniform in 0..|T|+2, at buffer sizes (4 KiB, 64 KiB, 1 MiB +-1), chunk starts +-1, within the last 4 KiB (failure only met by the final flush), |T|-1, |T|, |T|+1. Oracle: L < |T| => exit != 0 and a message; L >= |T| => exit 0 and the file holds the output of the run without limit (which must itself equal the text the injected stream receives). (3) TestPropRealPipes: same configurations on the write end of an os.Pipe and on a named pipe opened by Write*ToFile, the reader takes K bytes and leaves; |T| > K + capacity (4, 16 or 64 KiB, as reported by the kernel) => failure required, K >= |T| => success and complete output required, otherwise no verdict. (4) TestPropCommandsReal: obiconvert (fasta, fastq, json, -Z, batch sizes, --max-cpu, jitter) with -o <regular file> and with stdout redirected to a regular file under the same limit, obicsv with stdout on a limited regular file, obiconvert -o <named pipe> and -o /dev/stdout (a pipe reached through a descriptor that is not 1: EPIPE error instead of SIGPIPE) whose reader takes K >= 1 bytes and leaves, obiconvert -o <file on a tmpfs of K bytes in a private user+mount namespace> (real ENOSPC; skipped and counted where namespaces are not allowed); inputs of 1500-12000 reads (0.15-2.4 MB, 40000 reads thorough), 2-5 records of 70-200 kb, 1-30 short records. Oracle as in (2)/(3), plus: exit 0 => the output file holds exactly the complete output. Non-trivial for (2)-(4) = a failure is certain (the limit lies below |T|, resp. |T| > K + pipe capacity).")
 	evid.Note("level", "fault_enumeration")
 	evid.Main(m, "C18")
 }
@@ -107,5 +111,12 @@ func init() {
 		for _, m := range []string{"devfull", "pipe"} {
 			evid.Reg("cmd_"+cmd+"_"+m, checkCommand)
 		}
+		for _, m := range []string{"file", "realpipe", "fulldisk"} {
+			evid.Reg("cmd_"+cmd+"_"+m, checkCommandReal)
+		}
+	}
+	for _, w := range writers {
+		evid.Reg("real_file_"+w, checkReal)
+		evid.Reg("real_pipe_"+w, checkReal)
 	}
 }
